@@ -280,7 +280,7 @@ func runReq(raw json.RawMessage, seed int64, rec *Rec) {
 	case "badmsg":
 		body = env(0, bad)
 	case "badutf8": // does not decode, and what an error message would quote of it is not valid UTF-8
-		body = env(0, []byte("\"\xff\xfe\x80 not utf-8\""))
+		body = env(0, []byte("\"\xff\xfe{")) // (for JSON: a syntax error whose text echoes the bytes)
 	case "oversize":
 		body = env(0, encodeBV(codec, big))
 	case "cnoenc":
